@@ -33,7 +33,7 @@ func switchReturnMap(pkg *packages.Package, fd *ast.FuncDecl) (m map[int64]int64
 	for _, st := range sw.Body.List {
 		cc := st.(*ast.CaseClause)
 		if cc.List == nil {
-			hasDefaultFailStop = clauseFailStop(cc)
+			hasDefaultFailStop = clauseFailStop(pkg, cc)
 			continue
 		}
 		if len(cc.Body) == 0 {
